@@ -307,6 +307,7 @@ func runC05(r *Run) {
 	handlerRunsOnBranch(r)
 	flushSurvivesRevert(r)
 	uncommittedRunsOnBranch(r)
+	flushIsAllOrNothing(r)
 
 	// ---------- R5 ----------
 	r.Rule("R5", "PATH.flush-skip: StateDB.Commit runs in the middle of a transaction (before every precompile dispatch), so 'nothing to write' for a dirty slot is judged against what an earlier flush of this transaction wrote (transientStorage) whenever such a value exists, and against the originally loaded value only when it does not: the comparison with originStorage is reachable only over the not-found edge of the transientStorage lookup, and each SetState is followed by recording the value in transientStorage — otherwise a slot flushed inside a frame that later reverts keeps the reverted value in the store")
@@ -389,6 +390,23 @@ func runC05(r *Run) {
 			_, f, ok := fieldOfAddr(addrOfLoad(mu.Map))
 			return ok && f == "transientStorage"
 		}
+		// … directly, or by appending (key, value) to a list that a later loop copies into transientStorage (the record is
+		// then made once the whole flush has been written)
+		listAppends := map[ssa.Instruction]bool{}
+		eachInstr(cm, func(in ssa.Instruction) {
+			if mu, ok := in.(*ssa.MapUpdate); ok && isRec(in) {
+				backSlice(mu.Key, mu.Value).Any(func(v ssa.Value) bool {
+					if c, ok := v.(*ssa.Call); ok {
+						if b, ok := c.Call.Value.(*ssa.Builtin); ok && b.Name() == "append" {
+							listAppends[c] = true
+						}
+					}
+					return false
+				})
+			}
+		})
+		isRecDirect := isRec
+		isRec = func(in ssa.Instruction) bool { return isRecDirect(in) || listAppends[in] }
 		nSS := 0
 		eachInstr(cm, func(in ssa.Instruction) {
 			if !isSetState(in) {
@@ -403,7 +421,7 @@ func runC05(r *Run) {
 				b := x.Block()
 				return x == b.Instrs[0] && b != lb && isLoopHeader(b) && dominates(b, lb)
 			}}.Search()
-			r.Check(w == nil, "R5", fmt.Sprintf("%s#flushed-value-recorded-%d", fnID(cm), nSS), P.Pos(instrPos(in)), "SetState is followed by transientStorage[key] = value", "a flushed storage value is not recorded in transientStorage: a later Commit of the same transaction compares against the stale original value and skips or repeats writes", P.witness(w)...)
+			r.Check(w == nil, "R5", fmt.Sprintf("%s#flushed-value-recorded-%d", fnID(cm), nSS), P.Pos(instrPos(in)), "SetState is followed by transientStorage[key] = value (or by queueing the pair for the loop that records it)", "a flushed storage value is not recorded in transientStorage: a later Commit of the same transaction compares against the stale original value and skips or repeats writes", P.witness(w)...)
 		})
 		r.Floor("R5", "SetState calls in StateDB.Commit", nSS, 1)
 	} else {
@@ -1388,4 +1406,83 @@ func journalDiscipline(r *Run, entries []*types.Named) {
 func valueOf(in ssa.Instruction) ssa.Value {
 	v, _ := in.(ssa.Value)
 	return v
+}
+
+// flushIsAllOrNothing (C05 R12): a StateDB.Commit that fails half way leaves nothing behind.
+func flushIsAllOrNothing(r *Run) {
+	P := r.P
+	r.Rule("R12", "PATH.flush-is-all-or-nothing: StateDB.Commit also runs in the middle of a transaction (the flush every stateful precompile starts with), where its error only fails the current call frame — and it can fail after it has written some accounts (SetBalance refuses a blocked recipient such as a precompile address that was sent value). Every keeper write in Commit (DeleteAccount, SetCode, SetAccount, SetState) therefore receives the context of a CacheContext() branch, the branch's write function is called on every success exit and on no path to a failure exit, and the flushed-slot record (transientStorage) is updated only after it — otherwise a failed precompile frame leaves accounts, balances or storage of a half-written flush in the store")
+	cm, ok := P.FnOK("(*x/evm/statedb.StateDB).Commit")
+	if !ok {
+		r.Bad("R12", "anchor/StateDB.Commit", "", "not found")
+		return
+	}
+	inst := fnID(cm) + "#flush-is-all-or-nothing"
+	var cache *ssa.Call
+	eachInstr(cm, func(in ssa.Instruction) {
+		if c, ok := in.(*ssa.Call); ok && callInfo(c).Name == "CacheContext" {
+			cache = c
+		}
+	})
+	if cache == nil {
+		r.Bad("R12", inst, P.Pos(fnPos(cm)), "StateDB.Commit writes the dirty objects straight into the transaction's context: when a later object fails (a blocked recipient) the accounts written before it stay, although the precompile call that triggered the flush fails and its frame is reverted")
+		return
+	}
+	fromCache := func(v ssa.Value, idx int) bool {
+		ok := false
+		backSlice(v).Any(func(x ssa.Value) bool {
+			if ex, isE := x.(*ssa.Extract); isE && ex.Tuple == ssa.Value(cache) && ex.Index == idx {
+				ok = true
+			}
+			return ok
+		})
+		return ok
+	}
+	bad, nW := "", 0
+	eachCall(cm, func(ci CallInfo) {
+		if !ci.Invoke || !(ci.Name == "DeleteAccount" || ci.Name == "SetCode" || ci.Name == "SetAccount" || ci.Name == "SetState") {
+			return
+		}
+		nW++
+		okCtx := false
+		for _, a := range ci.Instr.Common().Args {
+			if namedName(a.Type()) == "Context" && fromCache(a, 0) {
+				okCtx = true
+			}
+		}
+		if !okCtx && bad == "" {
+			bad = ci.Name + " is not given the branch context"
+		}
+	})
+	isWrite := func(in ssa.Instruction) bool {
+		c, ok := in.(ssa.CallInstruction)
+		if !ok || c.Common().IsInvoke() || c.Common().StaticCallee() != nil {
+			return false
+		}
+		return fromCache(c.Common().Value, 1)
+	}
+	w1 := PathQuery{Fn: cm, Start: cache, Block: isWrite, Target: func(x ssa.Instruction) bool {
+		ret, ok := x.(*ssa.Return)
+		return ok && classifyExit(ret) == ExitSuccess
+	}}.Search()
+	var w2, w3 []ssa.Instruction
+	eachInstr(cm, func(in ssa.Instruction) {
+		if isWrite(in) && w2 == nil {
+			w2 = PathQuery{Fn: cm, Start: in, Target: func(x ssa.Instruction) bool {
+				ret, ok := x.(*ssa.Return)
+				return ok && classifyExit(ret) == ExitFailure
+			}}.Search()
+		}
+	})
+	// the flushed-slot record only after the branch was written
+	w3 = PathQuery{Fn: cm, Block: isWrite, Target: func(x ssa.Instruction) bool {
+		mu, ok := x.(*ssa.MapUpdate)
+		if !ok {
+			return false
+		}
+		_, f, ok := fieldOfAddr(addrOfLoad(mu.Map))
+		return ok && f == "transientStorage"
+	}}.Search()
+	r.Check(bad == "" && nW >= 4 && w1 == nil && w2 == nil && w3 == nil, "R12", inst, P.Pos(fnPos(cm)), "keeper writes go to a CacheContext branch written on every success exit, on no failure path, before the flushed-slot record",
+		"StateDB.Commit is not all-or-nothing ("+bad+"): a flush that fails half way — inside a precompile call frame that the calling contract tolerates — leaves part of the dirty state (an auth account for the precompile address, a sender's debit without the credit, storage) in the store, or records slots as flushed that were never written", P.witness(append(append(w1, w2...), w3...))...)
 }
